@@ -496,20 +496,31 @@ def run_unit(unit_name, tier, seed, workdir=None):
     # Functions whose text the verifier rejects (unsupported construct after a source change) are replaced by
     # external_body stubs carrying their contract, so that the rest of the unit is still decided; the
     # obligations of the stubbed function itself are reported as undecided, never as discharged.
-    helpers = {}
-    for _round in range(6):
+    helpers, rejected = {}, set()
+    for _round in range(8):
         g = gen.generate(unit_name, force_stub=tuple(unverifiable), workdir=workdir, extra_helpers=tuple(helpers.values()))
         probe = verify.run_verus(g['path'], 0, rl, 8, ['--no-verify'])
         pc = verify.classify(g, probe)
         bad = {}
         added = False
+        # a pulled-in helper whose body cannot serve as its own specification (it calls exec-only functions): give it up
+        for t in pc['tool_errors']:
+            if 'with mode exec' in t.get('message', '') or 'with mode spec' in t.get('message', ''):
+                for ln in t.get('lines') or [t.get('line')]:
+                    owner = verify._owner(g['linemap'], ln) if ln else None
+                    if owner and owner.startswith('helper::') and owner[len('helper::'):] in helpers:
+                        del helpers[owner[len('helper::'):]]
+                        rejected.add(owner[len('helper::'):])
+                        added = True
+        if added:
+            continue
         # a helper the code now calls and the unit does not know: (1) a single-expression helper is pulled in with its body as
         # its exact contract (every unit); (2) units whose obligations do not depend on what a helper returns (interleaving
         # units) also take receiver-less helpers without a contract -- instead of giving the caller up
         for t in pc['tool_errors']:
             mh = re.search(r'cannot find function `(\w+)` in this scope|cannot call function `(?:\w+::)*(\w+)` with mode spec|no method named `(\w+)` found|no function or associated item named `(\w+)` found', t.get('message', ''))
             hn = mh and next((x for x in mh.groups() if x), None)
-            if hn and hn not in helpers:
+            if hn and hn not in helpers and hn not in rejected:
                 h = gen.find_pure_helper(g['unit'], hn)
                 if h is None and g['unit'].get('auto_helpers'):
                     h = gen.find_free_helper(g['unit'], hn)
@@ -633,6 +644,16 @@ def main(argv):
             if t.get('kind') == 'note':
                 notes.append('unit %s: %s' % (unit_name, t['message']))
                 continue
+            if t.get('kind') == 'resource' and t.get('line') and unit_name in DYNAMIC_UNITS:
+                # the solver gave up on ONE function (resource limit): undecided for that function only -- its obligations
+                # go to the bounded stand-in like those of a function outside the verifier's reach
+                owner = verify._owner(res['gen']['linemap'], t['line'])
+                mine = [o for o in obs if owner and o.startswith(owner + '::')]
+                if mine:
+                    undecided.append("unit %s: %s is outside the verifier's reach after this change (solver resource limit); its obligations are not discharged" % (unit_name, owner))
+                    for o in mine:
+                        unreached.add('%s/%s' % (unit_name, o))
+                    continue
             undecided.append('unit %s: %s: %s' % (unit_name, t.get('kind'), t['message']))
         if cls['verified'] is None and not cls['tool_errors']:
             undecided.append('unit %s: verus produced no result (rc=%s) %s' % (unit_name, res['run']['rc'], ' '.join(res['run']['stderr'][:3])))
